@@ -1,44 +1,68 @@
 (* C09 — Speaker convergence: announcements depend on the current state, not on history.
    Statements only; proofs in Proofs/SpeakerP.v and Proofs/SpeakerRefuted.v.
-   [srun ev spk h] = (existing Services K, controller state) after the event list h
-   (Service / endpoint add-update-delete, configuration, node, speaker-membership
-   events, each followed by the full re-sync it requests; EResync = any other
-   re-sync), for a node with environment [ev] (name, ignore flag, local
-   interfaces, hash).  [fresh ev st K] = a freshly started controller fed the
-   nodes, the accepted configuration and the Services of the final state.
-   [announced_equiv]: same addresses (with interface sets) held by the layer-2
-   announcer for every Service and same route set on every BGP session. *)
+
+   PARTIAL.  What is proved is the statement under explicit hypotheses, each shown necessary by a
+   `_refuted` witness on the faithful model:
+     esvc_ok        no Service status repeats an address (boundary of compareIPs);
+     final_cfg_ok   F9: the configuration the speaker runs at the end does not select this node for layer 2
+                    only through interfaces it does not have;
+     stale_after    F25: no first event of a node (it requests no re-sync) happened with Services present
+                    without a full re-sync afterwards ("a node joins a running cluster" is excluded until then);
+     in_sync        the speaker is in sync with the cluster: the LAST DELIVERED configuration was accepted
+                    (a refused configuration is "not processed": the reconciler keeps retrying it, the speaker
+                    keeps announcing under the previous one) and no Node object it remembers was deleted
+                    (the node reconciler ignores NotFound: the speaker never forgets a node).
+   SCOPE.  Events of the model: Service / endpoint-slice add-update-delete, configuration (accepted or
+   refused), node add / label / condition change of this and of other nodes, Node deletion (invisible to
+   the speaker), speaker-list change, extra full re-sync; each followed by the full re-sync its handler
+   requests, atomically and in the order of the Service list (an interleaved or partial re-sync is the
+   same as repeated ESvc events with an unchanged Service).  NOT expressible by any event: handler errors
+   (SetBalancer / SetConfig / session-manager failures, SyncStateError retries, ErrorNoRetry after the
+   BGP peers were already replaced), memberlist itself (only its result, the speaker list), changes of
+   the local interface list, a nil configuration.  pool_for takes the first pool containing all addresses
+   (Go iterates a map): equivalent when pools do not overlap (C08).
+
+   [srun ev spk h] = (existing Services K, controller state) after the event list h, for a node with
+   environment [ev] (name, ignore flag, local interfaces, hash).  [api_run spk h] = what the API server
+   holds after h, computed from the events alone: last delivered configuration, existing Node objects,
+   speaker list.  [fresh_cluster ev a K] = a freshly started controller fed, in this order, the nodes,
+   the configuration and the Services the API server holds.  [fresh ev st K] = the same fed what the
+   speaker under test remembers.  [announced_equiv]: same layer-2 entries (address, interfaces) per
+   Service, same set of BGP sessions and same route set on every session. *)
 From Coq Require Import List NArith Bool.
 From Verif Require Import Model.Speaker Proofs.ElectP Proofs.SpeakerP Proofs.SpeakerRefuted.
 Local Open Scope N_scope.
 
-(* In every reachable state a full re-sync yields exactly the announcements of a fresh speaker
-   (the configuration the speaker runs must be free of F9) *)
-Theorem C09_resync_normal_form : forall ev spk h,
+
+(* History independence against the CLUSTER's final state, for all event histories. *)
+Theorem C09_history_independent_partial : forall ev spk h,
   forallb esvc_ok h = true ->
   final_cfg_ok ev (snd (srun ev spk h)) = true ->
-  let ws := srun ev spk h in
-  announced_equiv (resync ev (fst ws) (snd ws)) (fresh ev (snd ws) (fst ws)).
-Proof. exact resync_normal_form_run. Qed.
+  stale_after ev ([], sinit spk) false h = false ->
+  in_sync (api_run spk h) (snd (srun ev spk h)) ->
+  announced_equiv (snd (srun ev spk h)) (fresh_cluster ev (api_run spk h) (fst (srun ev spk h))).
+Proof. exact history_independent_cluster. Qed.
 
-(* History independence, for ALL event histories (Service / endpoint add-update-delete, accepted and
-   refused configurations, node events of this and of other nodes, speaker-list changes, extra
-   re-syncs; handler results honoured as the reconcilers do).  Hypotheses:
-     esvc_ok      no Service with a repeated address;
-     final_cfg_ok F9: the configuration the speaker FINALLY runs does not select this node for layer 2
-                  only through interfaces it does not have (earlier configurations are unconstrained);
-     stale_after  F25: no first event of a node (which requests no re-sync) happened with Services
-                  present without a full re-sync afterwards.
-   Conclusion: the layer-2 announcer entries of every Service, the set of BGP sessions and the route
-   set of every session equal those of a fresh speaker fed the final cluster state. *)
-Theorem C09_history_independent_partial : forall ev spk h,
+(* the same against what the speaker remembers (last accepted configuration, every node ever seen):
+   no in_sync hypothesis, but the comparison target is NOT the cluster's state *)
+Theorem C09_history_independent_on_remembered_state_partial : forall ev spk h,
   forallb esvc_ok h = true ->
   final_cfg_ok ev (snd (srun ev spk h)) = true ->
   stale_after ev ([], sinit spk) false h = false ->
   announced_equiv (snd (srun ev spk h)) (fresh ev (snd (srun ev spk h)) (fst (srun ev spk h))).
 Proof. exact history_independent. Qed.
 
-(* F9: without the hypothesis on the final configuration the statement is false (old announcement kept) *)
+(* In every reachable state a full re-sync yields the announcements of a fresh speaker fed the remembered
+   state (hypotheses: esvc_ok, final_cfg_ok) *)
+Theorem C09_resync_normal_form_partial : forall ev spk h,
+  forallb esvc_ok h = true ->
+  final_cfg_ok ev (snd (srun ev spk h)) = true ->
+  let ws := srun ev spk h in
+  announced_equiv (resync ev (fst ws) (snd ws)) (fresh ev (snd ws) (fst ws)).
+Proof. exact resync_normal_form_run. Qed.
+
+(* ---- each hypothesis is necessary (the other ones hold in every witness) ---- *)
+(* F9 *)
 Theorem C09_history_independent_refuted_interfaces :
   exists ev spk h,
     forallb esvc_ok h = true /\
@@ -50,7 +74,7 @@ Proof.
   destruct f9_refuted as [H1 [H2 [H3 [_ [_ H4]]]]]. auto.
 Qed.
 
-(* F25: without the hypothesis on first node events the statement is false *)
+(* F25 *)
 Theorem C09_history_independent_refuted_first_node_event :
   exists ev spk h,
     forallb esvc_ok h = true /\
@@ -61,8 +85,8 @@ Proof.
   destruct f25_refuted as [_ [H1 [H2 [_ [_ [_ H3]]]]]]. auto.
 Qed.
 
-(* boundary: esvc_ok is needed too — a Service status that repeats an address makes compareIPs accept
-   [a;a] against the recorded [a;b], and the announcement of b stays (reproduced on the real code) *)
+(* a Service status that repeats an address: compareIPs accepts [a;a] against the recorded [a;b] and the
+   announcement of b stays (reproduced on the real code) *)
 Theorem C09_history_independent_refuted_repeated_address :
   exists ev spk h,
     final_cfg_ok ev (snd (srun ev spk h)) = true /\
@@ -73,9 +97,37 @@ Proof.
   destruct repeated_address_refuted as [_ [H1 [H2 H3]]]. auto.
 Qed.
 
-(* C04 at reachable states: the announcer holds a Service iff this node wins the election on the
-   CURRENT view (nodes with their conditions / labels, ignore flag, speaker list, advertisements) *)
-Theorem C09_l2_announced_iff_elected : forall ev spk h name,
+(* a refused configuration is pending: the three other hypotheses hold, the nodes are in sync, the speaker
+   still announces under the previous configuration, a fresh speaker on the cluster's state does not *)
+Theorem C09_history_independent_refuted_pending_refusal :
+  exists ev spk h,
+    forallb esvc_ok h = true /\ final_cfg_ok ev (snd (srun ev spk h)) = true /\
+    stale_after ev ([], sinit spk) false h = false /\
+    s_nodes (snd (srun ev spk h)) = api_nodes (api_run spk h) /\
+    s_cfg (snd (srun ev spk h)) <> api_cfg (api_run spk h) /\
+    ~ announced_equiv (snd (srun ev spk h)) (fresh_cluster ev (api_run spk h) (fst (srun ev spk h))).
+Proof.
+  exists env_id, (Some [0]), pending_history.
+  destruct pending_refusal_refuted as [H1 [H2 [H3 [H4 [H5 [_ [_ H6]]]]]]]. auto 10.
+Qed.
+
+(* a deleted Node object is never forgotten: memberlist disabled, the deleted node stays the elected one *)
+Theorem C09_history_independent_refuted_deleted_node :
+  exists ev spk h,
+    forallb esvc_ok h = true /\ final_cfg_ok ev (snd (srun ev spk h)) = true /\
+    stale_after ev ([], sinit spk) false h = false /\
+    s_cfg (snd (srun ev spk h)) = api_cfg (api_run spk h) /\
+    s_nodes (snd (srun ev spk h)) <> api_nodes (api_run spk h) /\
+    ~ announced_equiv (snd (srun ev spk h)) (fresh_cluster ev (api_run spk h) (fst (srun ev spk h))).
+Proof.
+  exists env_del, None, deleted_node_history.
+  destruct deleted_node_refuted as [H1 [H2 [H3 [H4 [H5 [_ [_ H6]]]]]]]. auto 10.
+Qed.
+
+(* C04 at reachable states (hypotheses esvc_ok, final_cfg_ok, no F25 staleness): the announcer holds a
+   Service iff this node wins the election on the view the speaker remembers.  The right-hand side is the
+   model's decision function l2_should = Elect.decide, whose meaning is C04's theorems. *)
+Theorem C09_l2_announced_iff_elected_partial : forall ev spk h name,
   forallb esvc_ok h = true -> final_cfg_ok ev (snd (srun ev spk h)) = true ->
   stale_after ev ([], sinit spk) false h = false ->
   let K := fst (srun ev spk h) in let st := snd (srun ev spk h) in
@@ -84,9 +136,10 @@ Theorem C09_l2_announced_iff_elected : forall ev spk h name,
                   l2_should ev (s_nodes st) (s_spk st) p s ips = true.
 Proof. exact l2_announced_iff. Qed.
 
-(* several speakers (one per node, same ignore flag and hash) in normal form for the same cluster
-   and sharing configuration, nodes and speaker list: exactly one of them announces a Service that
-   has an eligible node, none otherwise *)
+(* several speakers (one per node, same ignore flag and hash) whose states satisfy the invariants of
+   reachable non-stale states (Bk, NF, cfg_good: derived from histories by Inv_run in Proofs/SpeakerP.v,
+   here assumed of the given states) for the same cluster and sharing configuration, nodes and speaker
+   list: exactly one of them announces a Service that has an eligible node, none otherwise *)
 Theorem C09_one_l2_announcer_among_speakers : forall (evs : N -> env) (sts : N -> sstate) K name s x r p,
   (forall n, en_me (evs n) = n /\ en_ignore (evs n) = en_ignore (evs 0) /\ en_hash (evs n) = en_hash (evs 0)) ->
   (forall n, Bk (evs n) (sts n) /\ NF (evs n) K (sts n) /\ cfg_good (evs n) (sts n) /\
@@ -103,7 +156,7 @@ Theorem C09_no_l2_announcer_without_eligible : forall (evs : N -> env) (sts : N 
   s_l2 (sts n) name = None.
 Proof. exact no_l2_announcer_without_eligible. Qed.
 
-(* the statement's "in particular": once processed, nothing remains announced for a
+(* the statement's "in particular" (all histories, only esvc_ok): once processed, nothing remains announced for a
    Service that was deleted, is not a LoadBalancer, has no / an invalid address
    or an address outside the configured pools (plan = None) *)
 Theorem C09_nothing_for_gone_service : forall ev spk h name os,
@@ -120,14 +173,40 @@ Theorem C09_service_normal_form : forall ev name os st,
   nf_name ev (set_balancer ev name os st) name os.
 Proof. intros ev name os st B H. apply (set_balancer_spec ev name os st B H). Qed.
 
-(* a configuration that orphans a recorded address changes nothing (and asks for a retry) *)
+(* a refused configuration changes nothing.  TRUE BY DEFINITION of set_config (it returns the unchanged
+   state together with `false`); its weight is the correspondence run (refused configurations occur in the
+   generated histories and the real controller's state is compared after them) *)
 Theorem C09_setconfig_refusal : forall ev c st,
   snd (set_config ev c st) = false -> fst (set_config ev c st) = st.
 Proof. exact setconfig_refusal. Qed.
 
-(* non-vacuity: the F25 history converges once the missing re-sync is added *)
+(* WHEN a configuration is refused: iff some Service with recorded addresses has no pool under it; and
+   addresses are recorded exactly for the Services announced by some protocol *)
+Theorem C09_setconfig_refused_iff : forall ev c st,
+  snd (set_config ev c st) = false <->
+  exists name ips, In name (s_ipkeys st) /\ s_ips st name = Some ips /\ pool_for c ips = None.
+Proof. exact setconfig_refused_iff. Qed.
+Theorem C09_recorded_iff_announced : forall ev st name,
+  Bk ev st -> (s_ips st name <> None <-> s_annb st name = true \/ s_annl st name = true).
+Proof. exact recorded_iff_announced. Qed.
+
+(* non-vacuity: ONE history satisfying all four hypotheses of C09_history_independent_partial with a
+   layer-2 entry, a BGP advertisement and a route on the session of a peer with a node selector; making
+   the node network-unavailable withdraws all of it *)
 Example C09_nonvacuous :
+  let ws := srun env_id (Some [0]) bgp_history in
+  let a := api_run (Some [0]) bgp_history in
+  forallb esvc_ok bgp_history = true /\ final_cfg_ok env_id (snd ws) = true /\
+  stale_after env_id ([], sinit (Some [0])) false bgp_history = false /\
+  s_cfg (snd ws) = api_cfg a /\ s_nodes (snd ws) = api_nodes a /\
+  s_l2 (snd ws) 0 <> None /\ bs_ads (s_bgp (snd ws)) 0 <> None /\
+  option_map (@length adv) (sess_of (s_bgp (snd ws)) 1) = Some 1%nat /\
+  let ws' := srun env_id (Some [0]) (bgp_history ++ [ENode (w_lab [(7, 7)] true)]) in
+  s_l2 (snd ws') 0 = None /\ bs_ads (s_bgp (snd ws')) 0 = None /\ sess_of (s_bgp (snd ws')) 1 = Some [].
+Proof. exact joint_nonvacuous. Qed.
+
+(* the F25 history converges once the missing re-sync is added *)
+Example C09_nonvacuous_resync :
   s_l2 (snd (srun env_rev None (f25_history ++ [EResync]))) 0 = None /\
-  stale_after env_rev ([], sinit None) false (f25_history ++ [EResync]) = false /\
-  s_l2 (snd (srun env_id (Some [0]) (firstn 3 f9_history))) 0 <> None.
-Proof. vm_compute. repeat split; discriminate. Qed.
+  stale_after env_rev ([], sinit None) false (f25_history ++ [EResync]) = false.
+Proof. vm_compute. repeat split. Qed.
